@@ -53,7 +53,7 @@ partial def stmtToJson : Stmt → PJson
   | .ret none => mk [("return", mk [])]
   | .ret (some e) => mk [("return", mk [("expr", exprToJson e)])]
   | .label l => mk [("label", .str l.render)]
-  | .function n args laa isAsync body =>
+  | .function _ n args laa isAsync body =>
       mk [("function", mk (
         (if args.isEmpty then [] else [("args", PJson.arr (args.map fun a => .str a.render))]) ++
         (if isAsync then [("async", PJson.bool true)] else []) ++
@@ -82,7 +82,7 @@ partial def stmtOfJson (j : PJson) : Option Stmt :=
       let name ← (f.get? "name").bind asStr?
       let args ← (f.arrD "args").mapM asStr?
       let body ← (f.arrD "statements").mapM stmtOfJson
-      pure (.function (Name.ofString name) (args.map Name.ofString) (f.boolD "lastArgArray") (f.boolD "async") body)
+      pure (.function (f.natD "fid") (Name.ofString name) (args.map Name.ofString) (f.boolD "lastArgArray") (f.boolD "async") body)
   | .obj [("include", i)] => do
       let incs ← (i.arrD "includes").mapM fun x => do
         let url ← (x.get? "url").bind asStr?
